@@ -106,3 +106,34 @@ pub fn verify_tx(tx: CoreTxView, swc: &StorageWithChainData, consensus: Consensu
     ensures r is Ok ==> tx_verified(tx, r->Ok_0) { unimplemented!() }
 pub struct EstimateCycles { pub cycles: Uint64 }
 // ===== end =====
+// ===== set_scripts RPC (C17 / C09) =====
+pub uninterp spec fn mb_locked() -> bool;      // C17: this handler took the write lock of Peers::matched_blocks (see peers_gate.rs)
+pub struct RwLockMB { pub x: u8 }
+pub struct MBGuardRes { pub x: u8 }
+pub struct MBGuard { pub x: u8 }
+impl RwLockMB { #[verifier::external_body] pub fn write(&self) -> (r: MBGuardRes) { unimplemented!() } }
+impl MBGuardRes { #[verifier::external_body] pub fn expect(self, msg: &str) -> (r: MBGuard) ensures mb_locked() { unimplemented!() } }
+impl MBGuard { #[verifier::external_body] pub fn clear(&mut self) { unimplemented!() } }
+pub struct JsonScriptStatus { pub x: u8 }
+pub struct StScriptStatus { pub x: u8 }            // storage::ScriptStatus
+pub enum JsonSetScriptsCommand { All, Partial, Delete }
+pub enum StSetScriptsCommand { All, Partial, Delete }
+// `scripts.into_iter().map(Into::into).collect()` (json -> storage ScriptStatus, element-wise)
+#[verifier::external_body]
+pub fn vf_scripts_into(v: Vec<JsonScriptStatus>) -> (r: Vec<StScriptStatus>) ensures r@.len() == v@.len() { unimplemented!() }
+// `command.map(Into::into).unwrap_or_default()`: the same command, All when absent (Default for storage::SetScriptsCommand)
+pub fn vf_command_into(c: Option<JsonSetScriptsCommand>) -> (r: StSetScriptsCommand)
+    ensures r == (match c { Some(JsonSetScriptsCommand::Partial) => StSetScriptsCommand::Partial, Some(JsonSetScriptsCommand::Delete) => StSetScriptsCommand::Delete, _ => StSetScriptsCommand::All })
+{
+    match c { Some(JsonSetScriptsCommand::Partial) => StSetScriptsCommand::Partial, Some(JsonSetScriptsCommand::Delete) => StSetScriptsCommand::Delete, _ => StSetScriptsCommand::All }
+}
+impl Storage {
+    // GATE (C17): the script set / filter progress / pending records are rewritten only under the matched_blocks write lock
+    #[verifier::external_body]
+    pub fn update_filter_scripts(&self, scripts: Vec<StScriptStatus>, command: StSetScriptsCommand) requires mb_locked() /*props:C17*/ { unimplemented!() }
+}
+impl StorageWithChainData {
+    #[verifier::external_body] pub fn matched_blocks(&self) -> (r: &RwLockMB) { unimplemented!() }
+}
+pub struct BlockFilterRpcImpl { pub swc: StorageWithChainData }
+// ===== end =====
